@@ -183,6 +183,19 @@ G16 == [name |-> "g16", params |-> <<"i64">>, vararg |-> TRUE, res |-> <<"i64", 
 G17 == [name |-> "g17", params |-> <<"i64">>, res |-> <<"i64">>, regty |-> <<"i", "i">>, gvar |-> TRUE,
         insns |-> <<InsIn("add", GV, <<GV, Reg(1)>>), InsIn("mov", Reg(2), <<GV>>), InsIn("add", Reg(2), <<Reg(2), Imm(One64)>>),
                     [op |-> "ret", s |-> <<Reg(2)>>]>>]
+(* g18 (blk:12 x, i64 v) -> i64, g19 (blk:20 x) -> i64, g20 (blk:4 x) -> i64 : by-value blocks whose size is not a multiple of 8;
+   each reads its last bytes and changes its own copy *)
+G18 == [name |-> "g18", params |-> <<"blk12", "i64">>, res |-> <<"i64">>, regty |-> <<"i", "i", "i">>,
+        insns |-> <<InsIn("add", Reg(3), <<Mem("i64", 0, 1, 0, 1), Reg(2)>>), InsIn("add", Reg(3), <<Reg(3), Mem("i32", 8, 1, 0, 1)>>),
+                    InsIn("mov", Mem("i32", 8, 1, 0, 1), <<Imm(Zero64)>>), InsIn("mov", Mem("i64", 0, 1, 0, 1), <<Imm(Ones64)>>),
+                    [op |-> "ret", s |-> <<Reg(3)>>]>>]
+G19 == [name |-> "g19", params |-> <<"blk20">>, res |-> <<"i64">>, regty |-> <<"i", "i">>,
+        insns |-> <<InsIn("xor", Reg(2), <<Mem("i64", 0, 1, 0, 1), Mem("i64", 8, 1, 0, 1)>>), InsIn("add", Reg(2), <<Reg(2), Mem("u32", 16, 1, 0, 1)>>),
+                    InsIn("mov", Mem("i32", 16, 1, 0, 1), <<Imm(Ones64)>>), InsIn("mov", Mem("i64", 8, 1, 0, 1), <<Imm(Zero64)>>),
+                    [op |-> "ret", s |-> <<Reg(2)>>]>>]
+G20 == [name |-> "g20", params |-> <<"blk4">>, res |-> <<"i64">>, regty |-> <<"i", "i">>,
+        insns |-> <<InsIn("mov", Reg(2), <<Mem("i32", 0, 1, 0, 1)>>), InsIn("mov", Mem("u16", 2, 1, 0, 1), <<Imm(Zero64)>>),
+                    InsIn("add", Reg(2), <<Reg(2), Mem("u16", 0, 1, 0, 1)>>), [op |-> "ret", s |-> <<Reg(2)>>]>>]
 FImm(fmt, x) == [k |-> "fimm", fmt |-> fmt, x |-> x]
 FImmVals == {Fin(0, 1, 0), Fin(1, 3, -1), Fin(0, 5, -3), Fin(0, 3, 20), Fin(0, 13, -4), FZero(0), Fin(0, 3, -40), Fin(1, 7, -33)}
 
@@ -222,13 +235,13 @@ KindsInt == {"ibin", "iun", "shift", "div", "br2", "br1", "loop", "ovf", "switch
 KindsFp == {"fbin", "fcmp", "fbr", "i2f", "f2i", "fmovm", "f2f", "callg3", "addrfp", "callva"}
 (* "link": the constructs MIR_link rewrites (calls to inline, allocas, jumps and branch chains, memory operands) *)
 KindsLink == {"callg1", "callg2", "callg3", "ext", "alloca", "br2", "br1", "loop", "switch", "ibin", "idx", "jmpi", "ovf", "calla",
-              "callg6", "callg7", "gcall", "rblk", "blkv", "alloca2", "lref1", "lref2", "addrst", "addrcall", "bsblk", "callva", "rcall", "lref3", "ext2", "alloca3", "br1i", "divm", "postinc"}
+              "callg6", "callg7", "gcall", "rblk", "blkv", "blkv12", "blkv20", "blkv4", "alloca2", "lref1", "lref2", "addrst", "addrcall", "bsblk", "callva", "rcall", "lref3", "ext2", "alloca3", "br1i", "divm", "postinc"}
 KindsOf == IF Vocab = "int" THEN KindsInt ELSE IF Vocab = "link" THEN KindsLink
          ELSE IF Vocab = "exec" THEN {"callg1", "callg2", "callg3", "calla", "ext", "icall", "icall5", "cb", "jmpi", "switch", "br2", "loop",
-                                      "ibin", "alloca", "fbin", "idx", "callg6", "callg7", "gcall", "rblk", "blkv", "callg12", "callg13", "callg14", "fmovm", "lref1", "lref2", "addrcall", "addrld", "bsblk", "callva", "rload", "rcall", "lref3", "alloca3"}
-         ELSE IF Vocab = "single" THEN (KindsInt \cup KindsFp \cup {"calla", "callg6", "callg7", "rblk", "blkv", "callg12", "callg13",
+                                      "ibin", "alloca", "fbin", "idx", "callg6", "callg7", "gcall", "rblk", "blkv", "blkv12", "blkv20", "blkv4", "callg12", "callg13", "callg14", "fmovm", "lref1", "lref2", "addrcall", "addrld", "bsblk", "callva", "rload", "rcall", "lref3", "alloca3"}
+         ELSE IF Vocab = "single" THEN (KindsInt \cup KindsFp \cup {"calla", "callg6", "callg7", "rblk", "blkv", "blkv12", "blkv20", "blkv4", "callg12", "callg13",
                                                                       "callg14", "icall", "icall5"}) \ {"callg3", "lref1", "lref2", "lref3", "callva"}   \* functions with at most one result
-         ELSE KindsInt \cup KindsFp \cup {"calla", "callg6", "callg7", "rblk", "blkv", "callg12", "callg13", "callg14"}
+         ELSE KindsInt \cup KindsFp \cup {"calla", "callg6", "callg7", "rblk", "blkv", "blkv12", "blkv20", "blkv4", "callg12", "callg13", "callg14"}
 NeedFull == {"pld", "pst", "gcall", "pidxst"}
 KindsGlob == IF ~UseG THEN {} ELSE {"gset", "gget", "gadd"} \cup (IF Glob = "calls" THEN {"gcall2"} ELSE {})
 KindsAbs == IF Abs /\ Vocab \in {"all", "link", "int"} THEN {"absld", "absst", "absd"} ELSE {}
@@ -294,6 +307,9 @@ Holes(k) ==
     [] k = "gcall" -> <<"ireg", "ireg">>
     [] k = "rblk" -> <<"ireg", "isrc">>
     [] k = "blkv" -> <<"ireg", "isrc">>
+    [] k = "blkv12" -> <<"ireg", "isrc", "isrc">>
+    [] k = "blkv20" -> <<"ireg", "isrc", "isrc">>
+    [] k = "blkv4" -> <<"ireg", "isrc">>
     [] k = "pld" -> <<"ireg", "imemty", "preg">>
     [] k = "pst" -> <<"imemty", "preg", "isrc">>
     [] k = "alloca2" -> <<"ireg", "isrc", "subld">>
@@ -455,6 +471,20 @@ Render(k, v) ==
                        InsIn("mov", Mem("i64", 0, PA, 0, 1), <<v[2]>>), InsIn("mov", Mem("i64", 8, PA, 0, 1), <<Imm(FromNat(11))>>),
                        [op |-> "call", callee |-> [k |-> "func", f |-> 12], res |-> <<v[1]>>, args |-> <<BlkArg("blk16", PA)>>],
                        InsIn("add", v[1], <<v[1], Mem("i64", 8, PA, 0, 1)>>), InsIn("xor", v[1], <<v[1], Mem("i64", 0, PA, 0, 1)>>)>>
+    \* by-value blocks of 12, 20 and 4 bytes: the last bytes are behind the last whole 8-byte word
+    [] k = "blkv12" -> <<[op |-> "alloca", d |-> Reg(PA), s |-> <<Imm(FromNat(16))>>],
+                         InsIn("mov", Mem("i64", 0, PA, 0, 1), <<v[2]>>), InsIn("mov", Mem("i32", 8, PA, 0, 1), <<v[3]>>),
+                         [op |-> "call", callee |-> [k |-> "func", f |-> 19], res |-> <<v[1]>>, args |-> <<BlkArg("blk12", PA), v[2]>>],
+                         InsIn("add", v[1], <<v[1], Mem("i32", 8, PA, 0, 1)>>), InsIn("xor", v[1], <<v[1], Mem("i64", 0, PA, 0, 1)>>)>>
+    [] k = "blkv20" -> <<[op |-> "alloca", d |-> Reg(PA), s |-> <<Imm(FromNat(32))>>],
+                         InsIn("mov", Mem("i64", 0, PA, 0, 1), <<v[2]>>), InsIn("mov", Mem("i64", 8, PA, 0, 1), <<Imm(FromNat(11))>>),
+                         InsIn("mov", Mem("i32", 16, PA, 0, 1), <<v[3]>>),
+                         [op |-> "call", callee |-> [k |-> "func", f |-> 20], res |-> <<v[1]>>, args |-> <<BlkArg("blk20", PA)>>],
+                         InsIn("add", v[1], <<v[1], Mem("i32", 16, PA, 0, 1)>>), InsIn("xor", v[1], <<v[1], Mem("i64", 8, PA, 0, 1)>>)>>
+    [] k = "blkv4" -> <<[op |-> "alloca", d |-> Reg(PA), s |-> <<Imm(FromNat(16))>>],
+                        InsIn("mov", Mem("i32", 0, PA, 0, 1), <<v[2]>>),
+                        [op |-> "call", callee |-> [k |-> "func", f |-> 21], res |-> <<v[1]>>, args |-> <<BlkArg("blk4", PA)>>],
+                        InsIn("add", v[1], <<v[1], Mem("i32", 0, PA, 0, 1)>>)>>
     \* read-only data section of the module: a named data item continued by an anonymous one
     [] k = "dload" -> <<InsIn("mov", Reg(RTMP), <<DRef3>>), InsIn("mov", v[1], <<v[2]>>)>>
     [] k = "callg12" -> <<[op |-> "call", callee |-> [k |-> "func", f |-> 13], res |-> <<Reg(14)>>, args |-> <<v[1]>>]>>
@@ -565,7 +595,7 @@ MainFunc ==
 Finalize ==
   /\ phase = "build" /\ slot = NSlots + 1 /\ cur.kind = ""
   /\ phase' = "run"
-  /\ prog' = [funcs |-> <<MainFunc, G1, G2, G3, G4, G5, G6, G7, G8, G9, G10, G11, G12, G13, G14, G15, G16, G17>>]
+  /\ prog' = [funcs |-> <<MainFunc, G1, G2, G3, G4, G5, G6, G7, G8, G9, G10, G11, G12, G13, G14, G15, G16, G17, G18, G19, G20>>]
   /\ mem' = InitMem(InitBuf, LrSeq)
   /\ frames' = InitFrames
   /\ status' = "run"
